@@ -33,6 +33,10 @@ import (
 //	           | f4 <g> | f5 <g> | f6 <t> | f7 <n> | f8 <i>  dotted fk / dotted set symbols of the item store
 //	           | wcount <n> | notags | subhas <g> | subcount <g> <n> | page <v> <skip> <limit>
 //	           | gname <n> | gtag <t> | gwtag <t> | gsub <v> | glist <skip> <limit>     group store
+//	           | xb <0|1> | xbs <v> | xs <label|nil> | xss <v> | xg | xw | gxb <0|1>      external (func) symbols (c18_s2.go)
+//	           | tagc <t> <fwd> | tagkeys <fwd> | linked <i> <g> | gidx <n>              index / link read paths (c18_s2.go)
+//	           | at <place> <query>      the same query on the store family at another base path (c18_s2.go:
+//	                                     every writer operation is applied to every family in the same transaction)
 //	    observation: "Q ids <id>..." | "Q item ..." | "Q count n n n" | "Q torn v1 v2" | "Q error ..."
 //	S <symbol>  /  P <filter>    symbol resolution / parsing under concurrency equals the sequential answer: "S same"
 //	X <helper>                   helper hammered from many goroutines gave the right answers: "X ok"
@@ -85,7 +89,8 @@ var c18TagPool = []string{"t0", "t1", "t2", "t3"}
 
 type c18World struct {
 	db     *boltz.DbImpl
-	stores *csStores
+	stores *csStores   // = fams[0], the family below "stores"
+	fams   []*csStores // the same stores at base paths of depth 1, 0, 2, 3 (c18s2Places)
 	dir    string
 }
 
@@ -177,8 +182,16 @@ func (t *c18Track) genOp(r *rng) (c18Op, bool) {
 }
 
 func (w *c18World) apply(ctx boltz.MutateContext, o c18Op) error {
+	for _, s := range w.fams {
+		if err := w.applyTo(s, ctx, o); err != nil {
+			return err
+		}
+	}
+	return nil
+}
+
+func (w *c18World) applyTo(s *csStores, ctx boltz.MutateContext, o c18Op) error {
 	tx := ctx.Tx()
-	s := w.stores
 	switch o.kind {
 	case "put":
 		e := &csItem{Id: o.it.id, Name: o.it.name, Group: o.it.group, Val: o.it.val, Tags: o.it.tags}
@@ -251,9 +264,18 @@ type c18Query struct {
 	a    string
 	v    int64
 	s, l int64 // skip / limit of the paged kinds; -1 = not set
+	d    int   // place: index into c18s2Places (0 = the family below "stores")
 }
 
 func (q c18Query) String() string {
+	if q.d != 0 {
+		d := q.d
+		q.d = 0
+		return fmt.Sprintf("at %d %s", d, q.String())
+	}
+	if s, ok := c18s2String(q); ok {
+		return s
+	}
 	switch q.kind {
 	case "f1":
 		return fmt.Sprintf("f1 %s %d", hxs(q.a), q.v)
@@ -273,6 +295,17 @@ func (q c18Query) String() string {
 
 // c18ParseQuery reads the tokens of a query back (replay)
 func c18ParseQuery(f []string) c18Query {
+	if f[0] == "at" && len(f) > 2 {
+		q := c18ParseQuery(f[2:])
+		q.d, _ = strconv.Atoi(f[1])
+		if q.d < 0 || q.d >= len(c18s2Places) {
+			q.d = 0
+		}
+		return q
+	}
+	if q, ok := c18s2Parse(f); ok {
+		return q
+	}
 	q := c18Query{kind: f[0], s: -1, l: -1}
 	num := func(k int) int64 {
 		if k >= len(f) {
@@ -319,6 +352,21 @@ func c18Paging(r *rng, reader int) (int64, int64) {
 }
 
 func c18GenQuery(r *rng, reader int) c18Query {
+	if r.chance(22) {
+		// objects registered once on a store and used by every reader: external symbols, index and
+		// link read paths - at every place (base path depth) with the same weight
+		q := c18s2GenQuery(r)
+		q.d = r.intn(len(c18s2Places))
+		return q
+	}
+	q := c18GenQueryBase(r, reader)
+	if r.chance(40) {
+		q.d = 1 + r.intn(len(c18s2Places)-1)
+	}
+	return q
+}
+
+func c18GenQueryBase(r *rng, reader int) c18Query {
 	if r.chance(62) {
 		// the kinds added for shared mutable objects: empty filter + paging, dotted symbols, sub-queries
 		switch r.intn(17) {
@@ -399,7 +447,7 @@ func (w *c18World) eval(tx *bbolt.Tx, q c18Query) (res string) {
 			res = "Q panic " + hxs(fmt.Sprint(r))
 		}
 	}()
-	s := w.stores
+	s := w.fams[q.d]
 	queryIds := func(f string) string {
 		ids, _, err := s.item.QueryIds(tx, f)
 		if err != nil {
@@ -434,6 +482,9 @@ func (w *c18World) eval(tx *bbolt.Tx, q c18Query) (res string) {
 			return "Q error " + hxs(err.Error())
 		}
 		return c18Ids2(ids)
+	}
+	if res, ok := c18s2Eval(s, tx, q, queryIds, groupIds); ok {
+		return res
 	}
 	switch q.kind {
 	case "list":
@@ -515,7 +566,7 @@ func (w *c18World) eval(tx *bbolt.Tx, q c18Query) (res string) {
 		}
 		_, marker, _ := c18Marker(tx)
 		idx := 0
-		if b := boltz.Path(tx, "stores", boltz.IndexesBucket, csTypeItem, csFieldName); b != nil {
+		if b := boltz.Path(tx, append(append([]string{}, c18s2Places[q.d]...), boltz.IndexesBucket, csTypeItem, csFieldName)...); b != nil {
 			cur := b.Cursor()
 			for k, _ := cur.First(); k != nil; k, _ = cur.Next() {
 				idx++
@@ -541,7 +592,8 @@ var c18Filters = []string{
 	`isEmpty(tags) and val between 1 and 5`,
 }
 
-var c18Symbols = []string{"id", "name", "val", "tags", "group", "group.name", "group.items", "watchers", "watchers.name", "group.items.tags", "nope", "group.nope", "watchers.id"}
+var c18Symbols = []string{"id", "name", "val", "tags", "group", "group.name", "group.items", "watchers", "watchers.name", "group.items.tags", "nope", "group.nope", "watchers.id",
+	c18s2SymOdd, c18s2SymLabel, "group." + c18s2SymGx, "watchers." + c18s2SymGx}
 
 func (w *c18World) parseAnswer(f string) (res string) {
 	defer func() {
@@ -659,6 +711,12 @@ func c18Helpers(w *c18World) []c18Helper {
 			})
 			return ok
 		}},
+		// filters and sorts over the external (func) symbols of every constructor, also behind an fk and a
+		// link symbol, at every place: concurrent callers evaluate different rows with different outcomes
+		{c18s2HelperExt, func(i int) bool { return c18s2Hammer(fixture.get(w), i, false) }},
+		// index and link read paths at every place (base path depth 0-3): concurrent callers read
+		// DIFFERENT keys of the same index
+		{c18s2HelperIdx, func(i int) bool { return c18s2Hammer(fixture.get(w), i, true) }},
 	}
 }
 
@@ -687,6 +745,9 @@ type c18Fixture struct {
 	ids      []string
 	queries  []c18Query
 	expected []string // sequential answers, computed before any concurrent use
+	// c18_s2.go: external symbol filters / index reads at every place, with their sequential answers
+	extQ, idxQ     []c18Query
+	extExp, idxExp []string
 }
 
 type c18FixtureOnce struct {
@@ -750,9 +811,16 @@ func (f *c18FixtureOnce) get(w *c18World) *c18Fixture {
 		}
 		fx.queries = append(fx.queries, c18Query{kind: "wcount", v: 2}, c18Query{kind: "gsub", v: 0},
 			c18Query{kind: "page", v: 0, s: 1, l: 4}, c18Query{kind: "f1", a: "g1", v: 0})
+		c18s2FixtureQueries(fx)
 		_ = fw.db.View(func(tx *bbolt.Tx) error {
 			for _, q := range fx.queries {
 				fx.expected = append(fx.expected, fw.eval(tx, q))
+			}
+			for _, q := range fx.extQ {
+				fx.extExp = append(fx.extExp, fw.eval(tx, q))
+			}
+			for _, q := range fx.idxQ {
+				fx.idxExp = append(fx.idxExp, fw.eval(tx, q))
 			}
 			return nil
 		})
@@ -775,14 +843,17 @@ func c18Open(dir string) (*c18World, error) {
 	if err != nil {
 		return nil, err
 	}
-	w := &c18World{db: db, stores: newCsStores(), dir: dir}
+	w := &c18World{db: db, dir: dir, fams: c18s2NewFamilies()}
+	w.stores = w.fams[0]
 	err = db.Update(nil, func(ctx boltz.MutateContext) error {
-		if e := w.stores.init(ctx.Tx()); e != nil {
-			return e
-		}
-		for _, g := range c18Groups {
-			if e := w.stores.group.Create(ctx, &csGroup{Id: g, Name: "G" + g}); e != nil {
+		for _, s := range w.fams {
+			if e := s.init(ctx.Tx()); e != nil {
 				return e
+			}
+			for _, g := range c18Groups {
+				if e := s.group.Create(ctx, &csGroup{Id: g, Name: "G" + g}); e != nil {
+					return e
+				}
 			}
 		}
 		return nil
